@@ -132,7 +132,7 @@ class Harness:
 
 def ops_alphabet(urls):
     u0, u1, u2 = urls[0], urls[1], urls[2]
-    return [('add', [u0], 0), ('add', [u1, u0, u1], 1), ('addv', [(u1, 1), (u0, 0), (u1, 7)]), ('add', [u2], 2), ('out', Status.todo, None), ('out', Status.todo, 1), ('in', u0, Status.done, True), ('in', u1, Status.error, False),
+    return [('add', [u0], 0), ('add', [u1, u0, u1], 1), ('addv', [(u1, 1), (u0, 0), (u1, 7)]), ('add', [u2], 2), ('out', Status.todo, None), ('out', Status.todo, 1), ('out', Status.todo, 0), ('in', u0, Status.done, True), ('in', u1, Status.error, False),
             ('release',), ('remove', [u0]), ('out', Status.error, None), ('update', u1, 5), ('reopen',), ('lookup', u0)]
 
 
@@ -189,7 +189,7 @@ def main():
                 r = rnd.random()
                 if r < 0.2: seq.append(('add', [rnd.choice(URLS) for _ in range(rnd.randrange(1, 5))], rnd.randrange(0, 4)))
                 elif r < 0.3: seq.append(('addv', [(rnd.choice(URLS), rnd.randrange(0, 9)) for _ in range(rnd.randrange(2, 6))]))
-                elif r < 0.5: seq.append(('out', rnd.choice([Status.todo, Status.error, Status.done]), rnd.choice([None, None, 1, 3])))
+                elif r < 0.5: seq.append(('out', rnd.choice([Status.todo, Status.error, Status.done]), rnd.choice([None, None, 0, 1, 3])))
                 elif r < 0.7: seq.append(('in', rnd.choice(URLS), rnd.choice([Status.done, Status.error, Status.skipped, Status.todo]), rnd.random() < 0.5))
                 elif r < 0.78: seq.append(('release',))
                 elif r < 0.86: seq.append(('remove', [rnd.choice(URLS) for _ in range(rnd.randrange(1, 3))]))
@@ -204,7 +204,7 @@ def main():
     finally:
         shutil.rmtree(tmpdir, ignore_errors=True)
     doc = {'label': 'bounded', 'functions': ['wpull/database/sqltable.py:BaseSQLURLTable (add_many, check_out, check_in, update_one, release, remove_many, get_one, get_all, count, contains)', 'wpull/database/wrap.py:URLTableHookWrapper'],
-           'cases': n, 'distinct_nontrivial': n, 'bound': 'all sequences of length <= %d over 13 operations on 3 URLs (in memory) + seeded random sequences of 5-40 operations over 6 URLs on disk with reopen; the whole table is compared with the reference after every operation' % maxlen,
+           'cases': n, 'distinct_nontrivial': n, 'bound': 'all sequences of length <= %d over 14 operations on 3 URLs (in memory) + seeded random sequences of 5-40 operations over 6 URLs on disk with reopen; the whole table is compared with the reference after every operation' % maxlen,
            'rule': 'a case is one operation sequence', 'result': 'no violation' if not bad else '%d violations' % len(bad), 'violations': bad[:30], 'known_findings': [],
            'samples': [{'sequence': ['add([u1, u0, u1], 1)', 'out(todo, None)', 'in(u0, done, True)']}], 'wall_s': round(time.time() - t0, 1)}
     if a.out: json.dump(doc, open(a.out, 'w'), indent=1, default=str)
